@@ -40,6 +40,7 @@ type inlineReport struct {
 	Kept      []string `json:"kept_calls"`      // "caller -> callee: reason" for new helpers left in place
 	NewFuncs  []string `json:"functions_not_in_the_baseline"`
 	Renamed   []string `json:"baseline_functions_renamed"`
+	Rewrites  []string `json:"source_rewrites"`
 	Unchanged bool     `json:"sources_unchanged"`
 }
 
@@ -114,7 +115,7 @@ func normaliseSources(repoDir string, env []string, buildFlags []string) (map[st
 		rep.Unchanged = true
 		return nil, rep, nil
 	}
-	pkg := pkgs[0]
+	pkg, preOverlay := preNormalise(pkgs[0], rep)
 	in := &inliner{pkg: pkg, info: pkg.TypesInfo, fset: pkg.Fset, decls: map[*types.Func]*ast.FuncDecl{}, fileOf: map[*ast.FuncDecl]*ast.File{},
 		cand: map[*types.Func]bool{}, why: map[*types.Func]string{}, rep: rep, changed: map[*ast.File]bool{}, inlinedN: map[*types.Func]int{}, keptN: map[*types.Func]int{}}
 	for _, f := range pkg.Syntax {
@@ -187,8 +188,8 @@ func normaliseSources(repoDir string, env []string, buildFlags []string) (map[st
 	}
 	sort.Strings(rep.NewFuncs)
 	if len(in.cand) == 0 {
-		rep.Unchanged = true
-		return nil, rep, nil
+		rep.Unchanged = preOverlay == nil
+		return preOverlay, rep, nil
 	}
 	// call graph among package functions; uses as values
 	calls := map[*types.Func]map[*types.Func]bool{}
@@ -240,38 +241,54 @@ func normaliseSources(repoDir string, env []string, buildFlags []string) (map[st
 		}
 		seen[from] = true
 		for g := range calls[from] {
-			if g == target || reach(g, target, seen) {
+			if g == target {
+				return true
+			}
+			// only cycles made of candidates alone prevent inlining: a cycle through a function
+			// that stays in place (baseline) ends there - the helper is inlined into it once
+			if in.cand[g] && reach(g, target, seen) {
 				return true
 			}
 		}
 		return false
 	}
+	var candList []*types.Func
 	for obj := range in.cand {
+		candList = append(candList, obj)
+	}
+	sort.Slice(candList, func(i, j int) bool { return candList[i].FullName() < candList[j].FullName() })
+	for _, obj := range candList {
 		if reach(obj, obj, map[*types.Func]bool{}) {
 			delete(in.cand, obj)
 			in.why[obj] = "recursive"
 		}
 	}
-	// process bottom-up: callees before callers
+	// process bottom-up: candidates first, callees before callers (the candidate-only call
+	// graph is acyclic now), then the functions that stay in place
 	done := map[*types.Func]bool{}
 	var order []*types.Func
-	var visit func(f *types.Func, stack map[*types.Func]bool)
-	visit = func(f *types.Func, stack map[*types.Func]bool) {
-		if done[f] || stack[f] {
+	var visit func(f *types.Func)
+	visit = func(f *types.Func) {
+		if done[f] {
 			return
 		}
-		stack[f] = true
+		done[f] = true
 		var gs []*types.Func
 		for g := range calls[f] {
-			gs = append(gs, g)
+			if in.cand[g] {
+				gs = append(gs, g)
+			}
 		}
-		sort.Slice(gs, func(i, j int) bool { return gs[i].Name() < gs[j].Name() })
+		sort.Slice(gs, func(i, j int) bool { return gs[i].FullName() < gs[j].FullName() })
 		for _, g := range gs {
-			visit(g, stack)
+			visit(g)
 		}
-		delete(stack, f)
-		done[f] = true
 		order = append(order, f)
+	}
+	for _, f := range candList {
+		if in.cand[f] {
+			visit(f)
+		}
 	}
 	var all []*types.Func
 	for obj := range in.decls {
@@ -279,7 +296,9 @@ func normaliseSources(repoDir string, env []string, buildFlags []string) (map[st
 	}
 	sort.Slice(all, func(i, j int) bool { return all[i].FullName() < all[j].FullName() })
 	for _, f := range all {
-		visit(f, map[*types.Func]bool{})
+		if !in.cand[f] {
+			order = append(order, f)
+		}
 	}
 	for _, f := range order {
 		fd := in.decls[f]
@@ -327,29 +346,18 @@ func normaliseSources(repoDir string, env []string, buildFlags []string) (map[st
 	sort.Strings(rep.Removed)
 	sort.Strings(rep.Kept)
 	if len(in.changed) == 0 {
-		rep.Unchanged = true
-		return nil, rep, nil
+		rep.Unchanged = preOverlay == nil
+		return preOverlay, rep, nil
 	}
 	overlay := map[string][]byte{}
+	for k, v := range preOverlay {
+		overlay[k] = v
+	}
 	for f := range in.changed {
-		// drop imports that became unused (a removed helper was their only user) and free-floating comments
-		var keepC []*ast.CommentGroup
-		for _, cg := range f.Comments {
-			if cg.End() < f.Package {
-				keepC = append(keepC, cg) // build constraints, file documentation
-			}
+		src, err := renderFile(in.fset, f, pkg)
+		if err != nil {
+			return nil, rep, err
 		}
-		f.Comments = keepC
-		var buf bytes.Buffer
-		if err := format.Node(&buf, in.fset, f); err != nil {
-			return nil, rep, fmt.Errorf("printing the normalised %s: %w", in.fset.File(f.Pos()).Name(), err)
-		}
-		src := buf.Bytes()
-		names := map[string]string{}
-		for path, ip := range pkg.Imports {
-			names[path] = ip.Name
-		}
-		src = pruneUnusedImports(src, names)
 		overlay[in.fset.File(f.Pos()).Name()] = src
 	}
 	return overlay, rep, nil
